@@ -50,7 +50,6 @@ Qed.
    The hexagonal norm and the kernels *)
 Definition hexnorm (p : chip) : Z :=
   Z.max (Z.max (fst p) (snd p)) 0 - Z.min (Z.min (fst p) (snd p)) 0.
-Definition chip_sub (p q : chip) : chip := (fst p - fst q, snd p - snd q).
 
 Ltac no_if t := lazymatch t with context [if _ then _ else _] => fail | _ => idtac end.
 Ltac break_cmp :=
@@ -99,10 +98,6 @@ Qed.
 Lemma len_repeat : forall l n, len (repeat l n) = Z.of_nat n.
 Proof. intros. unfold len. now rewrite repeat_length. Qed.
 
-(* c hops along one axis: the link `pos` if c >= 0, `neg` otherwise *)
-Definition axis_walk (pos neg : hexlink) (c : Z) : list hexlink :=
-  if c <? 0 then repeat neg (Z.to_nat (- c)) else repeat pos (Z.to_nat c).
-
 Lemma axis_walk_len : forall pos neg c, len (axis_walk pos neg c) = Z.abs c.
 Proof. intros. unfold axis_walk. destruct (Z.ltb_spec c 0); rewrite len_repeat; lia. Qed.
 
@@ -116,11 +111,6 @@ Proof.
   - rewrite Hn; cbn [fst snd]. f_equal; ring.
   - reflexivity.
 Qed.
-
-(* a three-axis vector is a walk of [hops v] links to the chip it denotes *)
-Definition vector_walk (v : Z * Z * Z) : list hexlink :=
-  let '(x, y, z) := v in
-  axis_walk East West x ++ axis_walk North South y ++ axis_walk SouthWest NorthEast z.
 
 Lemma vector_walk_len : forall v, len (vector_walk v) = hops v.
 Proof. intros [[x y] z]. unfold vector_walk, hops. rewrite !len_app, !axis_walk_len. lia. Qed.
@@ -930,4 +920,15 @@ Proof.
   - intros x y dx dy width height H. apply orb_false_iff in H. destruct H as [Hw Hh].
     unfold ldf_advance. destruct width as [w|], height as [h|];
       cbn [wrapo size_zero has_size size_val bind] in *; rewrite ?Hw, ?Hh; reflexivity.
+Qed.
+
+(* on a torus larger than 2 x 2 the link between two adjacent chips is unique: the label of a step is pinned *)
+Lemma torus_link_unique :
+  forall w h p l1 l2, 3 <= w -> 3 <= h -> 0 <= fst p < w -> 0 <= snd p < h ->
+    torus_step w h p l1 = torus_step w h p l2 -> l1 = l2.
+Proof.
+  intros w h p l1 l2 Hw Hh Hx Hy E.
+  pose proof (links_from_vector_wrap w h p l1 Hw Hh Hx Hy) as A.
+  pose proof (links_from_vector_wrap w h p l2 Hw Hh Hx Hy) as B.
+  rewrite E, B in A. injection A as A. destruct l1, l2; cbn in A; congruence.
 Qed.
